@@ -38,7 +38,7 @@ reg("C09", "proof", ASM, ["gbasis.base_one.BaseOneIndex.construct_array_{cartesi
     "gbasis.base_two_asymm.BaseTwoIndexAsymmetric.construct_array_{cartesian,spherical,mix,lincomb}",
     "gbasis.base_four_symm.BaseFourIndexSymmetric.construct_array_{cartesian,spherical,mix,lincomb}"])
 
-DISP = ["contracts.dispatch:Dispatch", "contracts.dispatch:DispatchAsymm"]
+DISP = ["contracts.dispatch:Dispatch", "contracts.dispatch:DispatchAsymm", "contracts.dispatch:ConventionInline"]
 CHECKS["C09"].harnesses += DISP
 
 reg("C02", "proof", ["contracts.moment_int:MomentIntermediate", "contracts.overlap:Cleanup", "contracts.diffop:DiffIntermediate",
